@@ -1052,7 +1052,11 @@ def compare(got, want, meta=None, *, what="result", sig=None, maybe_empty=False,
     except Violation as v:
         msg = v.message
         sym = v.sig.get("symptom")
-        if sym == "value-mismatch":
+        if "length are different" in msg.split(" dask:")[0].lower() or "shape mismatch" in msg.split(" dask:")[0]:
+            sym = "length-mismatch"
+        elif 'Attribute "names" are different' in msg.split(" dask:")[0] and "index" in msg.split(" dask:")[0].lower():
+            sym = "index-name-mismatch"
+        elif sym == "value-mismatch":
             head = msg.split(" dask:")[0]
             if 'Attribute "name" are different' in head or "names are different" in head:
                 sym = "name-mismatch"
